@@ -346,3 +346,55 @@ func elemOf(t types.Type) types.Type {
 	}
 	return t
 }
+
+// C13.R8 — the plugin-side decoder reports, for the j-th result, the VLAN of the j-th decoded IPInfo.
+func ruleDecoderPerIP(c *Ctx, rule string) {
+	fn := c.MustFn(rule, "cni/ipam", "Allocate")
+	if fn == nil {
+		return
+	}
+	conv := calls(fn, cniutilPkg+".IPInfoToResult")
+	if len(conv) != 1 {
+		c.undecided(rule, fn, "IPInfoToResult", nil, "expected one call")
+		return
+	}
+	ia, ok := conv[0].Common().Args[0].(*ssa.IndexAddr)
+	if !ok {
+		c.undecided(rule, fn, "IPInfoToResult argument", conv[0], "argument is not &ipInfos[j]")
+		return
+	}
+	n := 0
+	allInstrs(fn, func(in ssa.Instruction) {
+		st, ok := in.(*ssa.Store)
+		if !ok {
+			return
+		}
+		if b, isB := st.Val.Type().Underlying().(*types.Basic); !isB || b.Kind() != types.Uint16 {
+			return
+		}
+		dst, ok := st.Addr.(*ssa.IndexAddr)
+		if !ok {
+			return
+		}
+		if _, ok := dst.X.(*ssa.Alloc); !ok {
+			return
+		}
+		// only the append inside the loop over the decoded list
+		if loopHeaderOf(st) == nil || loopHeaderOf(st) != loopHeaderOf(conv[0]) {
+			return
+		}
+		n++
+		okV := false
+		if ld, isLd := st.Val.(*ssa.UnOp); isLd {
+			if fa, isFa := ld.X.(*ssa.FieldAddr); isFa && fieldName(fa.X.Type(), fa.Field) == "Vlan" {
+				if ia2, isIa := fa.X.(*ssa.IndexAddr); isIa && sameAccessOrValue(ia2.X, ia.X) && ia2.Index == ia.Index {
+					okV = true
+				}
+			}
+		}
+		c.ob(rule, fn, "vlan reported for a result is that of the same decoded IPInfo", st, okV, "vlanIDs = append(vlanIDs, ipInfos[j].Vlan) with the same j as IPInfoToResult(&ipInfos[j])")
+	})
+	if n == 0 {
+		c.undecided(rule, fn, "vlan append", nil, "no append of a uint16 inside the decode loop found")
+	}
+}
